@@ -628,6 +628,13 @@ def replay_negation(a):
         for v in ("a", "b", "c"):
             truth = f("b", v)
             cases.append((f'not S {sym} "{v}"', "FAIL" if truth else "PASS"))
+    # unary operators, all four polarity combinations (X exists, S is a string, S is not a list, Z does not exist)
+    for clause, truth in (("X exists", True), ("Z exists", False), ("S is_string", True), ("X is_string", False), ("S is_list", False), ("S !empty", True)):
+        q, op = clause.split(" ", 1)
+        neg_op = op[1:] if op.startswith("!") else "!" + op
+        cases += [(f"{q} {op}", "PASS" if truth else "FAIL"), (f"{q} {neg_op}", "FAIL" if truth else "PASS"),
+                  (f"not {q} {op}", "FAIL" if truth else "PASS"), (f"not {q} {neg_op}", "PASS" if truth else "FAIL"),
+                  (f"!{q} {neg_op}", "PASS" if truth else "FAIL")]
     return a.replay_cases(exe, data, cases)
 
 
@@ -1495,10 +1502,206 @@ def replay_join(a):
     return a.replay_cases(exe, data, cases, prefix=lets)
 
 
+def parser_clause_wiring(a):
+    """the access-clause parser (clause_with_map): what it parsed is what it builds - the clause's `negation` flag is exactly
+    'a prefix not was parsed' and its comparator is exactly what value_cmp returned"""
+    ex = a.exec(r"clause_with_map", {"parse": m_result_opq, "call_mut": m_result_opq, "branch": mirexec.m_try_branch,
+                                     "from_residual": mirexec.m_from_residual, "is_some": lambda ex, av: pure_is_some(ex, av)},
+                log=("*",), unroll=1, max_paths=5000)
+    a.fns.append("rules::parser::clause_with_map (generic body)")
+
+    def derived(v, base):
+        if v is None or base is None or v[0] != "opaque" or base[0] != "opaque":
+            return False
+        rev = {val[1]: k[0] for k, val in ex.proj.items() if isinstance(k, tuple) and len(k) == 2 and isinstance(k[0], int)
+               and isinstance(val, tuple) and val and val[0] == "opaque"}
+        i, d = v[1], 0
+        while i is not None and d < 40:
+            if i == base[1]:
+                return True
+            i = rev.get(i)
+            d += 1
+        return False
+    bad, nbuilt = [], 0
+    for p in ex.paths:
+        evs = [e for e in p.events if e[0] == "call"]
+        built = [e for e in evs if e[1] == "call_mut" and len(e[2]) > 1 and e[2][1][0] == "tuple" and e[2][1][1] and e[2][1][1][0][0] == "struct"
+                 and e[2][1][1][0][1] == "GuardAccessClause"]
+        if not built:
+            continue
+        nbuilt += 1
+        gac = built[0][2][1][1][0][2]
+        acl = gac.get("access_clause")
+        probs = []
+        # the parse of the optional prefix `not`
+        opts = [e for e in evs if e[1] == "opt" and e[2] and e[2][0] == ("fn", "not")]
+        # the combinator built right after opt(not) and applied to the clause's input: preceded(ws, opt(not))
+        pre = []
+        if opts:
+            after = evs[evs.index(opts[0]) + 1:]
+            if after and after[0][1] == "preceded" and len(after[0][2]) == 2 and after[0][2][0] == ("fn", "zero_or_more_ws_or_comment"):
+                pre = [after[0]]
+        first = [e for e in evs if e[1] == "call_mut" and pre and same_v(e[2][0], pre[0][3]) and e[3][0] == "enum"]
+        if not first:
+            probs.append("no parse of an optional prefix `not` found")
+        else:
+            payload1 = first[0][3][3]["Ok"]
+            iss = [e for e in evs if e[1] == "is_some" and e[2] and derived(e[2][0], payload1)]
+            neg = gac.get("negation")
+            if not (iss and neg is not None and neg[0] == "bool" and neg[1] == iss[-1][3][1]):
+                probs.append("`negation` is not 'the optional prefix not was present'")
+        # the comparator: whatever the second parse (query, ws, value_cmp) returned, untouched
+        ctxs = [e for e in evs if e[1] == "context" and len(e[2]) == 2 and e[2][1] == ("fn", "value_cmp")]
+        second = [e for e in evs if e[1] == "call_mut" and e[3][0] == "enum" and e is not (first[0] if first else None) and e is not built[0]]
+        cmp_ = acl[2].get("comparator") if acl is not None and acl[0] == "struct" else None
+        if not ctxs:
+            probs.append("value_cmp is not the comparator parser")
+        if not (cmp_ is not None and any(derived(cmp_, e[3][3]["Ok"]) for e in second)):
+            probs.append("the comparator stored is not the one parsed")
+        qry = acl[2].get("query") if acl is not None and acl[0] == "struct" else None
+        if not (qry is not None and any(derived(qry, e[3][3]["Ok"]) for e in second)):
+            probs.append("the query stored is not the one parsed")
+        if probs and os.environ.get("VERIF_DEBUG"):
+            print("parser_clause_wiring:", probs)
+        bad.append(pc_term(p.pc) if probs else "false")
+    c = a.discharge("parser/clause_with_map/builds-what-it-parsed", ex, bad,
+                    f"access-clause parser ({nbuilt} paths that build a clause; every combinator application is an arbitrary parse result): the "
+                    "clause built carries negation = 'the optional prefix `not` parsed to Some', and the query and (operator, operator-level "
+                    "not) pair exactly as returned by the query / value_cmp parsers - prefix and operator-level negation are kept apart, "
+                    "neither folded into the other", witness=False)
+    if c:
+        c["replay"] = replay_negation(a)
+        c["reproduced"] = c["replay"].get("reproduced", False)
+        a.candidates.append(c)
+
+
+def pure_is_some(ex, av):
+    if not av:
+        return ex.havoc("bool")
+    if av[0][0] == "enum":
+        return ("bool", f"(= {av[0][2]} 1)")
+    k = ("is_some", av[0][1]) if av[0][0] == "opaque" else None
+    if k is None:
+        return ex.havoc("bool")
+    if k not in ex.proj:
+        ex.proj[k] = ex.havoc("bool")
+    return ex.proj[k]
+
+
+def derived_or_same(v, base):
+    return v is not None and base is not None and str(v) == str(base)
+
+
+def flip_listin(a):
+    """operator-level `not` on a failed list-in comparison (`[..] not in [..]`, lhs a list value): which elements make up the
+    new difference and when the negated outcome is Success"""
+    VER = enum_variants(a.src, "rules/eval/operators.rs", "ValueEvalResult")
+    CR = enum_variants(a.src, "rules/eval/operators.rs", "ComparisonResult")
+    CMP = enum_variants(a.src, "rules/eval/operators.rs", "Compare")
+    PV = enum_variants(a.src, "rules/path_value.rs", "PathAwareValue")
+    LI = struct_fields(a.src, "rules/eval/operators.rs", "ListIn")
+    h = {}
+
+    def prep(ex):
+        e = ex.opq()
+        ex.proj[("disc", e[1])] = str(VER.index("ComparisonResult"))
+        cr = payload(ex, e, "ComparisonResult")
+        ex.proj[("disc", cr[1])] = str(CR.index("Fail"))
+        c = payload(ex, cr, "Fail")
+        ex.proj[("disc", c[1])] = str(CMP.index("ListIn"))
+        h.update(e=e, cr=cr, c=c)
+        return {"_2": e}
+
+    def m_is_empty_counted(ex, av):
+        # is_empty() of the vector being built: decided by the pushes made to it so far on this path
+        if av and av[0][0] == "opaque":
+            n = sum(1 for ev in ex.cur_events if ev[0] == "call" and ev[1] == "push" and ev[2] and ev[2][0] == av[0])
+            made = any(ev[0] == "call" and ev[1] == "with_capacity" and ev[3] == av[0] for ev in ex.cur_events)
+            if made:
+                return ("bool", "true" if n == 0 else "false")
+        return ex.havoc("bool")
+    ex = a.exec(OPS_IMPL + r"::\{closure#0\}",
+                {"next": mirexec.m_iter_next, "iter": mirexec.m_new_iter, "into_iter": mirexec.m_new_iter, "contains": lambda ex, av: ex.havoc("bool"),
+                 "with_capacity": lambda ex, av: ex.opq(), "clone": mirexec.m_identity, "re:Rc::<.*>::new$": mirexec.m_identity,
+                 "is_empty": m_is_empty_counted},
+                log=("push", "contains", "with_capacity", "new", "reverse_diff"), unroll=2, max_paths=20000,
+                first_arg_re=r"_1: &mut \{closure@[^}]*\}, _2: (?:operators::)?ValueEvalResult", prep=prep)
+    a.fns.append("rules::eval::operators::<(CmpOperator, bool) as Comparator>::compare::{closure#0} (failed list-in arm)")
+    lin = payload(ex, h["c"], "ListIn")
+    diff = field(ex, lin, LI.index("diff"), "Vec")
+    lhs_rc = field(ex, lin, LI.index("lhs"), "Rc")
+    rhs_rc = field(ex, lin, LI.index("rhs"), "Rc")
+    is_list = f"(= {disc(ex, lhs_rc)} {PV.index('List')})"
+    bad, nel = [], 0
+    for p in ex.paths:
+        r = p.ret
+        if p.outcome == "panic":
+            bad.append(f"(and {pc_term(p.pc)} {is_list})")        # unreachable!() only for a ListIn whose lhs is not a list
+            continue
+        if not (r and r[0] == "variant" and r[2] == "ComparisonResult" and r[3] and r[3][0][0] == "variant"):
+            bad.append(pc_term(p.pc))
+            continue
+        outcome = r[3][0][2]
+        elems = field(ex, payload(ex, lhs_rc, "List"), 1, "Vec")
+        its = [(k, el, tag, i) for k, el, tag, i in iterations(ex, p, it_filter=lambda ev: ex.iter_src.get(ev[2][0][1], ev[2][0]) == elems)]
+        entered = [(k, el, tag, i) for k, el, tag, i in its if f"(= {tag} 1)" in p.pc]
+        bounds = [i for _k, _e, _t, i in its] + [len(p.events)]
+        probs, parts, npush = [], [], 0
+        if not its:
+            probs.append("the elements of the left-hand list are not walked")
+        for n, (k, el, tag, i0) in enumerate(its):
+            if f"(= {tag} 1)" not in p.pc:
+                continue
+            nel += 1
+            seg = [e for i, e in enumerate(p.events) if bounds[n] <= i < bounds[n + 1] and e[0] == "call"]
+            cs = [e for e in seg if e[1] == "contains"]
+            pu = [e for e in seg if e[1] == "push"]
+            if not (len(cs) == 1 and same_v(cs[0][2][0], diff) and same_v(cs[0][2][1], el)):
+                probs.append("an element is not looked up in the old difference")
+                continue
+            if pu:
+                npush += 1
+                ok = len(pu) == 1 and same_v(pu[0][2][1], el)
+                parts.append(f"(not {cs[0][3][1]})" if ok else "false")
+            else:
+                parts.append(cs[0][3][1])
+        news = [e for e in p.events if e[0] == "call" and e[1] == "new" and len(e[2]) == 3]
+        made = [e for e in p.events if e[0] == "call" and e[1] == "with_capacity"]
+        if not (len(news) == 1 and made and same_v(news[0][2][0], made[-1][3]) and same_v(news[0][2][1], lhs_rc) and same_v(news[0][2][2], rhs_rc)):
+            probs.append("the result is not ListIn(new difference, same lhs, same rhs)")
+        n_it = "(+ 0 0 " + " ".join(f"(ite (= {t} 1) 1 0)" for _k, _e, t, _i in its) + ")"
+        complete = f"(= {n_it} {len(entered)})"
+        want = "Success" if npush == 0 else "Fail"
+        good = f"(and {complete} {' '.join(parts) if parts else 'true'} {'true' if outcome == want else 'false'})"
+        bad.append(f"(and {pc_term(p.pc)} {is_list} (not {'false' if probs else good}))")
+    c = a.discharge("operators::negated-compare/list-in-difference", ex, bad,
+                    f"operator-level `not` on a FAILED list-in outcome, left list of <= 2 elements ({nel} element visits), membership in the old "
+                    "difference arbitrary: every element of the left list is looked up in the old difference; the new difference consists, in "
+                    "order, of exactly the elements that were NOT in it (the ones that were found on the right); the negated outcome is "
+                    "Success iff that new difference is empty, else Fail; lhs and rhs are carried over unchanged")
+    if c:
+        c["replay"] = replay_list_not_in(a)
+        c["reproduced"] = c["replay"].get("reproduced", False)
+        a.candidates.append(c)
+
+
+def replay_list_not_in(a):
+    exe = a.cli()
+    if not exe:
+        return {"reproduced": False, "note": "native build failed"}
+    data = '{"A": ["x", "y"],\n "S": [ {"act": ["x", "y"]}, {"act": ["p"]} ], "one": ["x"]}\n'
+    cases = [("A in [\"x\", \"y\", \"w\"]", "PASS"), ("A in [\"x\", \"z\"]", "FAIL"), ("A not in [\"p\", \"q\"]", "PASS"),
+             ("A not in [\"x\", \"z\"]", "FAIL"), ("A not in [\"x\", \"y\", \"w\"]", "FAIL"), ("A not in [\"z\", \"y\"]", "FAIL"),
+             ("one not in [\"x\"]", "FAIL"), ("one not in [\"q\"]", "PASS"), ("S[*].act not in [\"q\", \"r\"]", "PASS"),
+             ("S[*].act not in [\"x\", \"r\"]", "FAIL"), ("S[*].act not in [\"p\", \"r\"]", "FAIL"), ("not A in [\"x\", \"z\"]", "FAIL"),
+             ("not A in [\"x\", \"y\", \"w\"]", "FAIL")]
+    return a.replay_cases(exe, data, cases)
+
+
 SITES = {
-    "C01": [guard_block, type_block, binary_operation, operator_dispatch, match_value, common_operator, contained_in, eq_operation, in_operation, list_map_equality],
+    "C01": [guard_block, type_block, binary_operation, operator_dispatch, match_value, common_operator, contained_in, eq_operation, in_operation, list_map_equality, flip_listin],
     "C02": [guard_block, type_block, record_tracker],
-    "C03": [flip_closure, negated_compare_wrapper],
-    "C13": [flip_closure, operator_dispatch, binary_operation, match_value, common_operator, contained_in, eq_operation, in_operation, list_map_equality],
+    "C03": [flip_closure, negated_compare_wrapper, parser_clause_wiring, flip_listin],
+    "C13": [flip_closure, operator_dispatch, binary_operation, match_value, common_operator, contained_in, eq_operation, in_operation, list_map_equality, flip_listin],
     "C18": [function_dispatch, elementwise, join_sequence],
 }
